@@ -54,7 +54,7 @@ def check(ctx):
                     b["kind"], c["api"], c["shape"], c["depth"], "closed" if c["closed"] else "truncated",
                     " under " + s["env"] if s["env"] else "", b["detail"][:300]), b)
     # the malformed / perturbed documents of the binding universe: panics, crashes, error values
-    plan = bindcommon.plan_for(ctx, ("leaf", "wrap1", "st1", "emb")) if ctx.quick else bindcommon.plan_for(ctx, ("leaf", "wrap1", "st1", "st2", "emb"))
+    plan = bindcommon.plan_for(ctx, ("leaf", "wrap1", "st1l", "st1w", "emb")) if ctx.quick else bindcommon.plan_for(ctx, ("leaf", "wrap1", "st1l", "st1w", "st2", "emb"))
     brs, bsums = bindcommon.run_rounds(ctx, plan)
     for s in bsums:
         for c in s.get("crashes") or []:
